@@ -151,8 +151,12 @@ class TriggerContext:
         :return: the result of the expression, or the exception that was raised.
         """
         try:
-            # evaluate in the scope of the paused frame (its module globals and its locals), not in ours
-            return eval(expression, getattr(self.__frame, 'f_globals', None), self.__frame.f_locals)
+            # evaluate in the scope of the paused frame (its module globals and its locals), not in ours. The names go
+            # into ONE namespace (locals over globals): a generator expression or lambda inside the expression is a
+            # nested scope, which can see the global namespace of an eval but never its local one
+            scope = dict(getattr(self.__frame, 'f_globals', None) or {})
+            scope.update(self.__frame.f_locals)
+            return eval(expression, scope)
         except BaseException as e:
             return e
 
